@@ -659,6 +659,13 @@ func (b *BaseStore) Sync(ctx context.Context, heads []ipfslog.Entry) error {
 			continue
 		}
 
+		if !h.Defined() || h.GetIdentity() == nil {
+			// a nil entry behind a non-nil interface (e.g. decoded from a JSON null), or an entry
+			// without author: nothing to verify it against
+			b.Logger().Debug("warning: Given input entry has no identity and was discarded.")
+			continue
+		}
+
 		if h.GetNext() == nil {
 			h.SetNext([]cid.Cid{})
 		}
